@@ -263,7 +263,7 @@ func runStress(thorough bool, seed uint64, fams []*family, mark func(string)) *s
 	out := &stressOut{Ops: map[string]int{}, Goro: map[string]int{}}
 	rounds := 30
 	if thorough {
-		rounds = 800
+		rounds = 500
 	}
 	for _, f := range fams {
 		if isDead(f.typ) {
@@ -273,7 +273,7 @@ func runStress(thorough bool, seed uint64, fams []*family, mark func(string)) *s
 		directed := directedRounds(f)
 		nDirected := 120
 		if thorough {
-			nDirected = 1000
+			nDirected = 600
 		}
 		for rd := 0; rd < rounds+nDirected*len(directed); rd++ {
 			nG := 2 + rng.Intn(3)
